@@ -50,6 +50,12 @@ def run(b, ps, tier, seed):
         violations.append(C.Violation("the premise tc_annotations_typed of the progress theorem fails on an accepted program of the fragment: %s" % [i for i, _ in not_typed[:3]],
                                       {"property": PROP, "kind": "unproven", "no_longer_checks": [{"what": "premise check (static_typed_b on the annotated program)", "detail": not_typed[0][1][:800]}]},
                                       found_input=False))
+    # the accepted sets must agree; a program only the real checker accepts is run, and processes blocked at quiescence
+    # (or a panic) on it are the concrete failure
+    acov, avio = P.accepted_set_check(b, PROP, seed, tier, lambda r: bool(r["panic"]) or any(x in ("S", "R") for x in r["live"]))
+    if not violations:
+        violations.extend(avio)
+    pcov.update(acov)
     cov = R.coverage(d, {"live_sets_seen": {str(k): v for k, v in live_hist.items()},
                          "runs_where_model_leaves_poised_processes": poised,
                          "deviations_confirmed": deviations, "cut_short_by_timer_then_ok_on_rerun": load_artefacts})
